@@ -105,18 +105,19 @@ def _on_alarm(signum, frame):
 
 
 def guarded(rec, fn, witness_fn):
-    """Run one case under a wall-clock guard. A case that normally takes < 1 ms and does not finish
-    within 3 s, and again not within 30 s, is reported as a runaway (infinite loop)."""
+    """Run one case under a CPU-time guard (ITIMER_VIRTUAL: the process's own user CPU time, so that an overloaded
+    machine cannot turn a slow case into a verdict). A case that normally takes about a millisecond and burns 3 s,
+    and run again 30 s, of CPU without finishing is reported as a runaway (infinite loop)."""
     for limit in (3, 30):
-        signal.signal(signal.SIGALRM, _on_alarm)
-        signal.setitimer(signal.ITIMER_REAL, limit)
+        signal.signal(signal.SIGVTALRM, _on_alarm)
+        signal.setitimer(signal.ITIMER_VIRTUAL, limit)
         try:
             return fn()
         except Runaway:
-            rec.count('guard.alarm_%ds' % limit)
+            rec.count('guard.alarm_%ds_cpu' % limit)
             continue
         finally:
-            signal.setitimer(signal.ITIMER_REAL, 0)
+            signal.setitimer(signal.ITIMER_VIRTUAL, 0)
     rec.violation('runaway-no-termination', witness_fn())
     return False
 
